@@ -150,3 +150,61 @@ pub fn canon_obj(o: &Obj) -> String {
     canon_obj_into(o, &mut s);
     s
 }
+
+// ---------------------------------------------------------------------------------------------
+// Obj -> model value (used only to adopt variables a faulted statement was allowed to change)
+
+use crate::val::{Dict, V};
+use num::rational::BigRational;
+
+fn num_to_v(n: &NNum) -> V {
+    match n {
+        NNum::Int(i) => V::Int(i.to_bigint().into_owned()),
+        NNum::Rational(r) => V::Rat(BigRational::new(r.numer().clone(), r.denom().clone())),
+        NNum::Float(f) => V::Float(*f),
+        NNum::Complex(z) => V::Cx(z.re, z.im),
+    }
+}
+
+pub fn obj_to_v(o: &Obj, struct_names: &[String]) -> Option<V> {
+    Some(match o {
+        Obj::Null => V::Null,
+        Obj::Num(n) => num_to_v(n),
+        Obj::Seq(Seq::String(s)) => V::Str((**s).clone()),
+        Obj::Seq(Seq::Bytes(b)) => V::Bytes((**b).clone()),
+        Obj::Seq(Seq::Vector(xs)) => V::Vector(xs.iter().map(num_to_v).collect()),
+        Obj::Seq(Seq::List(xs)) => {
+            let mut out = Vec::new();
+            for x in xs.iter() {
+                out.push(obj_to_v(x, struct_names)?);
+            }
+            V::List(out)
+        }
+        Obj::Seq(Seq::Dict(d, def)) => {
+            // entries sorted by canonical key text so that the adopted value is deterministic
+            let mut items: Vec<(String, V, V)> = Vec::new();
+            for (k, v) in d.iter() {
+                let ko = key_to_obj(k.clone());
+                items.push((canon_obj(&ko), obj_to_v(&ko, struct_names)?, obj_to_v(v, struct_names)?));
+            }
+            items.sort_by(|a, b| a.0.cmp(&b.0));
+            V::Dict(Dict {
+                entries: items.into_iter().map(|(_, k, v)| (k, v)).collect(),
+                default: match def {
+                    Some(dv) => Some(Box::new(obj_to_v(dv, struct_names)?)),
+                    None => None,
+                },
+            })
+        }
+        Obj::Seq(Seq::Stream(_)) => return None,
+        Obj::Func(..) => return None,
+        Obj::Instance(s, fields) => {
+            let sid = struct_names.iter().position(|n| n == &*s.name)?;
+            let mut out = Vec::new();
+            for x in fields.iter() {
+                out.push(obj_to_v(x, struct_names)?);
+            }
+            V::Inst(sid, out)
+        }
+    })
+}
